@@ -454,7 +454,7 @@ class PEP8Normalizer(ErrorFinder):
                         should_be_indentation = n.indentation
 
                         self._last_indentation_tos = n
-                        if n == node:
+                        if n == node or n.parent is None:
                             break
                         n = n.parent
 
